@@ -100,7 +100,10 @@ def replay(files, main, o, budget, check_final=True, max_steps=400):
     nonlr = [e for e in o["app_errors"] if e[0] == NON_LR]
     exp_pos = sorted((m["file"], m["line"]) for m in ms if not m["det"])
     got_pos = sorted((e[2], e[3]) for e in nonlr)
-    if got_pos != exp_pos:
+    spans = sorted((m["file"], min(m.get("dline", m["line"]), m["line"]), m["line"]) for m in ms if not m["det"])
+    # "at the position of its definition": any line from the DEFINE keyword to the pattern's first token is accepted
+    ok_pos = len(spans) == len(got_pos) and all(g[0] == s_[0] and s_[1] <= g[1] <= s_[2] for g, s_ in zip(got_pos, spans))
+    if not ok_pos:
         rp.bad("non-lr-verdicts", "non-linear errors reported at %s, the reference rejects the patterns defined at %s" % (got_pos, exp_pos))
         return rp
     rp.rejected = len(exp_pos)
